@@ -107,14 +107,14 @@ Qed.
 Lemma chain_end_nonref f k c ke ce : chain f k c ke ce -> cref ce = None.
 Proof. induction 1; assumption. Qed.
 
-Lemma follow_spec b base D : forall fuel s o ob s' o', inv b base NX D s -> hget s o = Some ob -> b <= o ->
-  follow fuel s o = (s', Ok o') ->
+Lemma follow_spec b base D : forall fuel s o ob lk s' o' lk', inv b base NX D s -> hget s o = Some ob -> b <= o ->
+  follow fuel s o lk = (s', Ok (o', lk')) ->
   exists ob', hget s' o' = Some ob' /\ r_ref (o_rec ob') = None /\
     chain (Lc s) (o_id ob) (core (o_rec ob)) (o_id ob') (core (o_rec ob')) /\
     (forall k, Lc s' k = Lc s k) /\ supply s' = supply s.
 Proof.
-  induction fuel as [|f IH]; intros s o ob s' o' I Ho Hbo H; cbn [follow] in H; rewrite Ho in H.
-  - destruct (r_ref (o_rec ob)) eqn:Hr; [discriminate|]. injection H as <- <-.
+  induction fuel as [|f IH]; intros s o ob lk s' o' lk' I Ho Hbo H; cbn [follow] in H; rewrite Ho in H.
+  - destruct (r_ref (o_rec ob)) eqn:Hr; [discriminate|]. injection H as <- <- <-.
     exists ob. split; [exact Ho|]. split; [exact Hr|]. split; [apply ch_end; exact Hr | split; reflexivity].
   - destruct (r_ref (o_rec ob)) as [t|] eqn:Hr.
     + destruct (cache_get_inv _ _ _ _ _ t I) as (s1 & r & E & I1 & Hres).
@@ -126,11 +126,11 @@ Proof.
         destruct (compact_frame (set_heap (set_evs s (es ++ evs s)) (heap s ++ [mkObj t r0])) 1 (inv_ffnd _ _ _ _ _ I)) as (_ & -> & _). reflexivity. }
       rewrite E in *. cbn [fst] in HLc, Hsup. destruct r as [o1|]; [|discriminate].
       destruct Hres as [Hbo1 [ob1 (Ho1 & [Hid1|[]] & _ & HL1)]].
-      destruct (IH s1 o1 ob1 s' o' I1 Ho1 Hbo1 H) as (ob' & Ho' & Hr' & Hch & HLc' & Hsup').
+      destruct (IH s1 o1 ob1 t s' o' lk' I1 Ho1 Hbo1 H) as (ob' & Ho' & Hr' & Hch & HLc' & Hsup').
       exists ob'. split; [exact Ho'|]. split; [exact Hr'|]. split; [|split; [intro k; rewrite HLc'; apply HLc | congruence]].
       eapply ch_hop; [exact Hr | | eapply chain_ext; [exact HLc|]; rewrite <- Hid1; exact Hch].
       unfold Lc. rewrite HL1. reflexivity.
-    + injection H as <- <-. exists ob. split; [exact Ho|]. split; [exact Hr|]. split; [apply ch_end; exact Hr | split; reflexivity].
+    + injection H as <- <- <-. exists ob. split; [exact Ho|]. split; [exact Hr|]. split; [apply ch_end; exact Hr | split; reflexivity].
 Qed.
 
 Lemma cache_get_supply s k : ffnd s -> supply (fst (cache_get s k)) = supply s.
@@ -189,8 +189,8 @@ Proof.
         -- destruct (sat_add (c_idexpiry (conf s)) (c_grace (conf s)) <=? since (r_created (o_rec ob)) (now s1))%Z eqn:Hb.
            ++ rewrite sf_backstop in H; [discriminate | apply F1 | exact Hv | unfold isref; rewrite Hrf; reflexivity | exact Hb].
            ++ rewrite (sf_ref _ _ _ _ _ _ _ t Hv Hrf Hb) in H.
-              destruct (follow _ s1 o) as [s2 [o2|e|e]] eqn:Ef; try discriminate. injection H as <- <- <-.
-              destruct (follow_spec _ _ _ _ _ _ _ _ _ I1 Ho Hbo Ef) as (ob2 & Ho2 & Hr2 & Hch & _ & _).
+              destruct (follow _ s1 o k) as [s2 [[o2 lk2]|e|e]] eqn:Ef; try discriminate. injection H as <- <- <-.
+              destruct (follow_spec _ _ _ _ _ _ _ _ _ _ _ I1 Ho Hbo Ef) as (ob2 & Ho2 & Hr2 & Hch & _ & _).
               exists (mkObj (o_id ob2) (upd_req s2 q (o_rec ob2))). rewrite hget_hupd, Nat.eqb_refl, Ho2.
               split; [reflexivity|]. split; [exact Hr2|]. right. exists k. split; [reflexivity|].
               exists (o_rec ob). split; [exact HL|]. right. exists t. split; [exact Hrf|].
